@@ -33,6 +33,9 @@ def run(ctx):
     ctx.each(r06l, ctx, repo)
     ctx.each(r06m, ctx, repo)
     ctx.each(r06n, ctx, repo)
+    from . import c03 as _c03
+
+    ctx.each(_c03.r03d, ctx, repo)  # an in-place operation on a view of the model's stored arrays changes what the next evaluation in the same step reads
     from . import c04
 
     ctx.each(c04.r04e, ctx, repo)  # parameters at the first index are functions of the post-flush sizes
